@@ -380,7 +380,7 @@ def main_check(prop, tier, jobs=None):
         "violations": int(sum(unknown.values())),
     }
     # runs against a scratch copy of the tree (mutant runs) must not overwrite the evidence of /repo
-    evdir = os.path.join(VERIF_DIR, "evidence" if root == "/repo" else "evidence-scratch")
+    evdir = os.path.join(VERIF_DIR, "evidence" if root == "/repo" and not os.environ.get("VERIF_ONLY") else "evidence-scratch")
     os.makedirs(evdir, exist_ok=True)
     with open(os.path.join(evdir, f"{prop}.json"), "w") as f:
         json.dump(evidence, f, indent=1, sort_keys=True)
